@@ -331,7 +331,7 @@ class BuiltinMixin:
         if isinstance(b, tuple):
             _, c, body = b
             b = z3.And(c, body) if combine == "any" else z3.Implies(c, body)
-        jj = z3.Int("qi")
+        jj = self.bv("qi", z3.IntSort())
         sub = lambda f: z3.substitute(f, (j, jj))
         for f in new_facts:       # facts produced while evaluating the predicate hold for every index
             st.facts.append(z3.ForAll([jj], z3.Implies(sub(rng), sub(f)), patterns=[v.sat(seq.t, jj)]))
@@ -420,7 +420,7 @@ class BuiltinMixin:
         base = src.t if src.pt in ("set", "frozenset") else (v.set_of_seq(seq.t) if seq is not None else None)
         arg = src.t if src.pt in ("set", "frozenset") else seq.t
         r = f(arg)
-        x = z3.Const("x", v.Val)
+        x = self.bv("x")
         st.facts.append(z3.ForAll([x], v.shas(r, x) == (v.has(arg, x) if src.pt in ("set", "frozenset") else v.shas(arg, x)), patterns=[v.shas(r, x)]))
         st.facts.append(v.slen(r) == (v.card(arg) if src.pt in ("set", "frozenset") else v.slen(arg)))
         st.facts.append(v.ty(r) == v.cls["list"])
@@ -442,7 +442,7 @@ class BuiltinMixin:
     # ------------------------------------------------------------------ spec-only functions (contract language)
     SPEC_ONLY = {"card", "implies", "iff", "forall", "exists", "subset", "set_eq", "old", "is_class", "keys_of",
                  "ty_is", "same_class", "unchanged", "fresh_obj", "no_effects", "effects", "attr", "sel", "tuple2", "sval", "ival",
-                 "local", "distinct", "cls_name", "clsattr", "written_text", "opened_path", "ext", "box_bool", "tl_get", "raw_tq_ok", "is_blank", "attr_of", "eq_str", "mro_of", "as_dict", "as_list", "as_set", "seq_len", "dict_len", "truthy", "dict_get", "pyeval_str", "at", "is_none"}
+                 "local", "as_set_of", "distinct", "cls_name", "clsattr", "written_text", "opened_path", "ext", "box_bool", "tl_get", "raw_tq_ok", "is_blank", "attr_of", "eq_str", "mro_of", "as_dict", "as_list", "as_set", "seq_len", "dict_len", "truthy", "dict_get", "pyeval_str", "at", "is_none"}
     SPEC_CONSTS = {}
 
     def bi_card(self, node, st, fr):
@@ -481,6 +481,16 @@ class BuiltinMixin:
         param = lam.args.args[0].arg
         saved = dict(st.env)
         try:
+            if coll.pt in ("set", "frozenset", "dict") and z3.is_app(coll.t) and coll.t.decl().kind() == z3.Z3_OP_ITE:
+                c_, a_, b_ = coll.t.children()
+
+                def branch(t_):
+                    fake = ast.Call(func=node.func, args=[ast.Name(id="$coll", ctx=ast.Load()), lam], keywords=[])
+                    st.env["$coll"] = SV(t_, coll.pt)
+                    return self._quant_spec(fake, st, fr, combine).t
+                qa = self.under(st, c_, lambda: branch(a_))
+                qb = self.under(st, z3.Not(c_), lambda: branch(b_))
+                return SV(z3.If(c_, qa, qb), "bool")
             if coll.pt in ("set", "frozenset", "dict"):
                 coll = SV(self.named(coll.t, st), coll.pt, coll.py)
                 x = self.fresh("qx")
@@ -489,14 +499,24 @@ class BuiltinMixin:
                 body = self.evb(lam.body, st, fr)
                 new = st.facts[n_f:]
                 del st.facts[n_f:]
-                xx = z3.Const("qv", v.Val)
+                xx = self.bv("qv")
                 mem = v.has(coll.t, xx) if coll.pt != "dict" else v.dhas(coll.t, xx)
                 sub = lambda f: z3.substitute(f, (x, xx))
+                pats = [mem]
+                if len(node.args) > 2 and isinstance(node.args[2], ast.Lambda):
+                    # explicit trigger: forall(coll, lambda x: body, lambda x: <term whose occurrence should fire the instance>)
+                    tl = node.args[2]
+                    st.env[tl.args.args[0].arg] = st.env[param]
+                    trig = self.ev(tl.body, st, fr)
+                    tt = trig.t if trig.pt in ("bool",) or trig.t is not None else None
+                    from .sym import pattern_safe
+                    if tt is not None and pattern_safe(sub(tt)):
+                        pats = [sub(tt)]
                 for f in new:
-                    st.facts.append(z3.ForAll([xx], z3.Implies(mem, sub(f)), patterns=[mem]))
+                    st.facts.append(z3.ForAll([xx], z3.Implies(mem, sub(f)), patterns=pats))
                 if combine == "all":
-                    return SV(z3.ForAll([xx], z3.Implies(mem, sub(body)), patterns=[mem]), "bool")
-                return SV(z3.Exists([xx], z3.And(mem, sub(body)), patterns=[mem]), "bool")
+                    return SV(z3.ForAll([xx], z3.Implies(mem, sub(body)), patterns=pats), "bool")
+                return SV(z3.Exists([xx], z3.And(mem, sub(body)), patterns=pats), "bool")
             if coll.pt == "range":
                 lo, hi = coll.py
                 jv = self.fresh("qj", z3.IntSort())
@@ -505,7 +525,7 @@ class BuiltinMixin:
                 body = self.evb(lam.body, st, fr)
                 new = st.facts[n_f:]
                 del st.facts[n_f:]
-                jj = z3.Int("qr")
+                jj = self.bv("qr", z3.IntSort())
                 sub = lambda f: z3.substitute(f, (jv, jj))
                 rng = z3.And(lo <= jj, jj < hi)
                 for f in new:
@@ -728,3 +748,7 @@ class BuiltinMixin:
     def bi_distinct(self, node, st, fr):
         x = self.ev(node.args[0], st, fr)
         return SV(self.voc.distinct(self.as_seq(x, st, fr, node).t), "bool")
+
+    def bi_as_set_of(self, node, st, fr):
+        x = self.ev(node.args[0], st, fr)
+        return SV(self.as_set(x, st, fr, node).t, "set")
